@@ -76,6 +76,21 @@ def build(flavour, main="driver.c", out=None, extra_cflags=(), with_lib=True, li
 
 
 # ------------------------------------------------------------- driver runs
+# Heap contents must not matter: every driver process gets one of four fill patterns for freshly malloc'ed memory (ASan's
+# malloc_fill_byte for instrumented builds, glibc's MALLOC_PERTURB_ for the others), chosen by shard / block index, so that an
+# uninitialised field of the instance does not hide behind one lucky pattern (ASan's default 0xbe reads as SMART|NASM|NASM).
+HEAP_FILLS = [(0xbe, 0), (0x00, 255), (0xff, 85), (0x41, 170)]
+
+
+def heap_env(k, env_extra=None):
+    e = dict(env_extra or {})
+    fill, perturb = HEAP_FILLS[k % len(HEAP_FILLS)]
+    if "ASAN_OPTIONS" not in e:
+        e["ASAN_OPTIONS"] = SAN_ENV["ASAN_OPTIONS"] + ":malloc_fill_byte=%d" % fill
+    e.setdefault("MALLOC_PERTURB_", str(perturb))
+    return e
+
+
 def _run_driver(binary, script_lines, tag, env_extra=None, timeout=None):
     """Run one driver process over script_lines. Returns (records, finished, stderr_text, rc)."""
     wd = workdir()
@@ -157,6 +172,19 @@ def san_summary(err):
     return sig
 
 
+# Circuit breaker for trees on which (nearly) every case hangs: each hang costs one watchdog period (20 s), so after
+# HANG_LIMIT hangs in one check run the remaining cases of the workload are not executed. They are recorded as skipped
+# (Verdict counts them, they are not violations); the hangs already observed are violations, so the verdict is unaffected.
+# On a tree without hangs the breaker never engages.
+HANG_LIMIT = 12
+_hangs = [0]
+SKIPPED = {"what": "skipped", "sig": "skipped:after-repeated-hangs", "stderr": "", "cmd_index": 0}
+
+
+def _is_hang(what, rc):
+    return rc == -999 or rc == 98 or " hang" in (" " + str(what))
+
+
 def run_cases(binary, cases, tag="c", nproc=None, env_extra=None, per_case_timeout=30.0, prelude=()):
     """cases: list of lists of command strings (without the 'case' line).
     Returns list (aligned) of dicts {records:[...], crash:None|{what,stderr,sig}, stdout:str}.
@@ -174,6 +202,10 @@ def run_cases(binary, cases, tag="c", nproc=None, env_extra=None, per_case_timeo
         pos = 0
         rounds = 0
         while pos < len(idxs):
+            if _hangs[0] >= HANG_LIMIT:
+                for ci in idxs[pos:]:
+                    results[ci] = {"records": [], "crash": dict(SKIPPED)}
+                break
             rounds += 1
             script = list(prelude)
             layout = []  # (case index, first record idx, ncmds)
@@ -183,8 +215,10 @@ def run_cases(binary, cases, tag="c", nproc=None, env_extra=None, per_case_timeo
                 layout.append((ci, base, len(cases[ci])))
                 script.extend(cases[ci])
                 base += 1 + len(cases[ci])
-            tmo = 60 + per_case_timeout * len(layout)
-            recs, finished, err, rc, outtxt = _run_driver(binary, script, "%s-%d-%d" % (tag, si, rounds), env_extra, tmo)
+            # the in-process watchdog (20 s per case) is the real bound; this outer one only matters if the driver cannot even
+            # run its alarm handler (seen: deadlock inside the sanitizer runtime while it reports). Cases take milliseconds.
+            tmo = max(120, 60 + 0.25 * len(layout)) * max(1.0, per_case_timeout / 30.0)
+            recs, finished, err, rc, outtxt = _run_driver(binary, script, "%s-%d-%d" % (tag, si, rounds), heap_env(si, env_extra), tmo)
             nrec = len(recs)
             crash_rec = None
             if recs and recs[-1].startswith("X "):
@@ -207,6 +241,8 @@ def run_cases(binary, cases, tag="c", nproc=None, env_extra=None, per_case_timeo
             what = crash_rec or ("exit=%s" % rc)
             if rc == -999:
                 what = "hang(outer-timeout)"
+            if _is_hang(what, rc):
+                _hangs[0] += 1
             results[ci] = {"records": got, "crash": {"what": what, "cmd_index": len(got), "sig": san_summary(err) or _crash_sig(what), "stderr": err[-6000:]}}
             pos += done + 1
         return True
@@ -247,12 +283,16 @@ def run_lines(binary, items, tag="l", nproc=None, env_extra=None, chunk=20000, p
         pos = s
         rounds = 0
         while pos < e:
+            if _hangs[0] >= HANG_LIMIT:
+                for k in range(pos, e):
+                    results[k] = {"crash": dict(SKIPPED)}
+                break
             rounds += 1
             script = ["case %d" % bi] + list(prelude)
             for k in range(pos, e):
                 m, t, st = items[k]
                 script.append("line %s %s %d" % (m, hx(t), st))
-            recs, finished, err, rc, _ = _run_driver(binary, script, "%s-%d-%d" % (tag, bi, rounds), env_extra, 120 + 0.01 * (e - pos))
+            recs, finished, err, rc, _ = _run_driver(binary, script, "%s-%d-%d" % (tag, bi, rounds), heap_env(bi, env_extra), 120 + 0.01 * (e - pos))
             crash_rec = None
             if recs and recs[-1].startswith("X "):
                 crash_rec = recs.pop()
@@ -267,6 +307,8 @@ def run_lines(binary, items, tag="l", nproc=None, env_extra=None, chunk=20000, p
             what = crash_rec or ("exit=%s" % rc)
             if rc == -999:
                 what = "hang(outer-timeout)"
+            if _is_hang(what, rc):
+                _hangs[0] += 1
             results[k] = {"crash": {"what": what, "sig": san_summary(err) or _crash_sig(what), "stderr": err[-6000:]}}
             pos = k + 1
         return True
@@ -293,11 +335,15 @@ def load_findings():
         return json.load(f)["findings"]
 
 
+CURRENT = [None]  # the Verdict of the running check (so that ./check can still report violations if the check aborts)
+
+
 class Verdict:
     """Collects violations of one property check, matches them against the
     committed known findings and produces exit status, evidence and replay files."""
 
     def __init__(self, prop, tier, level="exploration"):
+        CURRENT[0] = self
         self.prop = prop
         self.tier = tier
         self.level = level
@@ -325,6 +371,9 @@ class Verdict:
         symptom: signature string; ';' (and ' | ' between the two decoders) separates atomic
         differences. The violation is a known finding iff EVERY atom is explained by some committed
         finding whose 'where' predicate holds for this case; otherwise it is reported."""
+        if symptom.startswith("skipped:"):
+            self.cov["cases_skipped_after_repeated_hangs"] = self.cov.get("cases_skipped_after_repeated_hangs", 0) + 1
+            return
         atoms = []
         for part in symptom.split(" | "):
             for a in part.split(";"):
